@@ -64,7 +64,7 @@ class Rendered:
     __slots__ = ("case", "uid", "text", "start", "end", "line0", "msg_off", "kv_allowed", "decoy", "stmt_off")
 
 
-def render_case(case, uid):
+def render_case(case, uid, macroset=None):
     """Returns (text, info) for one feature record; offsets in info are relative to the start of the text (in
     characters of the str; converted to bytes by the packer)."""
     s = case["s"]
@@ -90,11 +90,13 @@ def render_case(case, uid):
     elif s["trailing"] == "reflikearg":
         msg += " {}"
         args_after += ', "[ref: 5] arg"'
-    name = {"bare": macro, "qualified": "log::" + macro, "unconfigured": "debug", "prefix": macro + "_extra",
-            "suffix": "my_" + macro, "othermod": "other::" + macro, "submod": "log::sub::" + macro,
+    mod = (macroset or {}).get(macro, "log")
+    others = sorted(set((macroset or {"x": "other"}).values()) - {mod}) or ["other"]
+    name = {"bare": macro, "qualified": mod + "::" + macro, "crossmod": others[uid % len(others)] + "::" + macro, "unconfigured": "debug", "prefix": macro + "_extra",
+            "suffix": "my_" + macro, "othermod": "other::" + macro, "submod": mod + "::sub::" + macro,
             "shortmod": "l::" + macro, "noliteral": macro, "noargs": macro, "linecomment": macro,
             "blockcomment": macro, "doccomment": macro, "instring": macro, "upper": macro.upper(),
-            "crateprefixed": "crate::log::" + macro}.get(head)
+            "crateprefixed": "crate::" + mod + "::" + macro}.get(head)
     if name is None:
         raise ToolError("unknown head " + head)
     # argument list with recorded offsets
